@@ -16,6 +16,18 @@ from . import vstore
 from .ir import IR, X, ref
 
 
+class Bare(int):
+    """out_ids value meaning `output=<that node itself>` (not a list)."""
+
+
+def ids_of(out_ids):
+    if out_ids is None:
+        return []
+    if isinstance(out_ids, Bare):
+        return [int(out_ids)]
+    return list(out_ids)
+
+
 class RegPlan:
     def __init__(self):
         self.ir = IR()
@@ -23,12 +35,16 @@ class RegPlan:
         self.producer_of = {}  # dsrc nid -> producer nid
         self.dsrc_of = {}  # producer nid -> dsrc nid
         self.normalising = {}  # nid -> bool
+        self.alias_of = {}  # alias source nid -> stored nid whose store it shares (test_source_dependent_on_write)
 
     def registered(self):
-        return [i for i, r in self.role.items() if r in ("stored", "psrc", "dsrc")]
+        return [i for i, r in self.role.items() if r in REGISTERED]
 
     def is_source(self, i):
-        return self.role[i] in ("psrc", "dsrc")
+        return self.role[i] in ("psrc", "dsrc", "alias")
+
+
+REGISTERED = ("stored", "psrc", "dsrc", "alias", "slit")
 
 
 def gen_regplan(rng, n, family=None, cfg=None):
@@ -44,6 +60,8 @@ def gen_regplan(rng, n, family=None, cfg=None):
     p_dep = cfg.get("p_dep", 0.2)
     p_kw = cfg.get("p_kw", 0.2)
     p_norm = cfg.get("p_norm", 0.5)
+    p_alias = cfg.get("p_alias", 0.12)
+    p_slit = cfg.get("p_slit", 0.12)
     KW = ["zeta", "alpha", "m10", "m9", "beta", "k2"]
     sk2id = {}
     has_reg_anc = {}
@@ -55,6 +73,13 @@ def gen_regplan(rng, n, family=None, cfg=None):
     for si in range(n):
         preds = [sk2id[p] for p in sorted(P[si])]
         rng.shuffle(preds)
+        if not preds and rng.random() < p_slit:
+            nd = ir.add("lit", value=rng.choice([7, "lit", (1, 2), None, 3.5]), scope=_scope(rng), fname="lit")
+            rp.role[nd.id] = "slit"  # a registered literal: its value is written to / read back from its store
+            rp.normalising[nd.id] = rng.random() < p_norm
+            has_reg_anc[nd.id] = False
+            sk2id[si] = nd.id
+            continue
         if not preds and rng.random() < p_src:
             nd = ir.add("source", scope=_scope(rng), fname="src")
             rp.role[nd.id] = "psrc"
@@ -78,7 +103,7 @@ def gen_regplan(rng, n, family=None, cfg=None):
         nd = ir.add("call", args=args, kwargs=kwargs, scope=_scope(rng), fname=f"fn{rng.randrange(4)}")
         for d in deps:
             ir.deps.append((d, nd.id))
-        anc_reg = any(rp.role[p] in ("stored", "psrc", "dsrc") or reg_anc(p) for p in preds)
+        anc_reg = any(rp.role[p] in REGISTERED or reg_anc(p) for p in preds)
         has_reg_anc[nd.id] = anc_reg
         r = rng.random()
         if preds and anc_reg and r < p_dsrc:
@@ -95,6 +120,19 @@ def gen_regplan(rng, n, family=None, cfg=None):
             if rng.random() < p_store:
                 rp.role[nd.id] = "stored"
                 rp.normalising[nd.id] = rng.random() < p_norm
+                if rng.random() < p_alias:
+                    # alias pattern: a source that reads the store this node writes, ordered after it by a dependency;
+                    # downstream nodes consume either the node or its alias
+                    a = ir.add("source", scope=_scope(rng), fname="alias")
+                    rp.role[a.id] = "alias"
+                    rp.alias_of[a.id] = nd.id
+                    rp.normalising[a.id] = rp.normalising[nd.id]
+                    ir.deps.append((nd.id, a.id))
+                    has_reg_anc[a.id] = True
+                    ir.meta.setdefault("alias_first", {})[a.id] = rng.random() < 0.5
+                    if rng.random() < 0.6:
+                        sk2id[si] = a.id
+                        continue
             else:
                 rp.role[nd.id] = "plain"
             sk2id[si] = nd.id
@@ -131,9 +169,26 @@ class Session:
         pending_adds = []
         for n in ir.nodes:
             role = rp.role[n.id]
+            if n.kind == "lit":
+                if n.scope:
+                    with self.plan.scope(*n.scope):
+                        n.node = self.plan.lit(n.value)
+                else:
+                    n.node = self.plan.lit(n.value)
+                norm = rp.normalising[n.id] if all_normalising is None else all_normalising
+                self.stores[n.id] = vstore.VStore(f"s{n.id}", self.clock, self.H, normalising=norm)
+                pending_adds.append(n.id)
+                continue
             if n.kind == "source":
                 norm = rp.normalising[n.id] if all_normalising is None else all_normalising
-                st = vstore.VStore(f"s{n.id}", self.clock, self.H, normalising=norm)
+                if role == "alias":
+                    tgt = rp.alias_of[n.id]
+                    st = self.stores[tgt]
+                    if tgt in pending_adds and not ir.meta.get("alias_first", {}).get(n.id):
+                        pending_adds.remove(tgt)  # register the writing node BEFORE its alias source
+                        self.registry.add(ir.nodes[tgt].node, st)
+                else:
+                    st = vstore.VStore(f"s{n.id}", self.clock, self.H, normalising=norm)
                 self.stores[n.id] = st
                 if n.scope:
                     with self.plan.scope(*n.scope):
@@ -176,7 +231,6 @@ class Session:
         self.reg = set(rp.registered())
         self.reg_anc = {i: (ir.ancestors([i], self.preds) - {i}) & self.reg for i in range(len(ir.nodes))}
         self.store_name = {i: st.name for i, st in self.stores.items()}
-        self.name_to_id = {st.name: i for i, st in self.stores.items()}
         H = self.H
         prod = rp.dsrc_of
 
@@ -198,6 +252,10 @@ class Session:
                 v = self.stores[n.id].content
             elif role == "dsrc":
                 v = raw[rp.producer_of[n.id]]
+            elif role == "alias":
+                v = raw[rp.alias_of[n.id]]
+            elif role == "slit":
+                v = n.value
             else:
                 v = irmod.compute(ir, n, [seen[a.a] for a in n.args], [(k, seen[a.a]) for k, a in n.kwargs])
             raw[n.id] = v
@@ -231,7 +289,7 @@ class Session:
     def expect(self, out_ids, fresh_tick=None):
         """Exact multiset of call executions, store writes, reads and side writes of a successful run."""
         rp, ir = self.rp, self.ir
-        O = set(out_ids or ())
+        O = set(ids_of(out_ids))
         ood = self.ood(fresh_tick)
         need = set()
         # least fixpoint over unregistered calls, in reverse topological (id) order
@@ -255,7 +313,7 @@ class Session:
         for i in self.reg:
             if rp.role[i] == "stored" and ood[i]:
                 execs.add(i)
-        writes = {i for i in self.reg if rp.role[i] == "stored" and ood[i]}
+        writes = {i for i in self.reg if rp.role[i] in ("stored", "slit") and ood[i]}
         reads = set()
         for p in self.reg:
             if p in O or any(m in execs for m in self.argsucc[p]):
@@ -278,11 +336,15 @@ class Session:
     def out_spec(self, out_ids):
         if out_ids is None:
             return None
+        if isinstance(out_ids, Bare):
+            return self.ir.nodes[int(out_ids)].node
         return [self.ir.nodes[i].node for i in out_ids]
 
     def run(self, out_ids=None, W=1, sched=None, fresh_tick=None, perturb="none", seed=0, dry_run=False, **kw):
         H = self.H
         H.reset()
+        for st in self.stores.values():
+            st.reads_returned = []
         random.seed(seed & 0xFFFFFFFF)
         fresh = None if fresh_tick is None else vstore.Clock.to_dt(fresh_tick)
         res = rec_run = None
@@ -301,7 +363,8 @@ class Session:
         return res, exc
 
     def observed(self):
-        """Multisets observed in the last run."""
+        """Multisets observed in the last run: calls by node id; store operations by STORE NAME (a store can be shared by a
+        stored node and its alias source)."""
         H = self.H
         execs = collections.Counter()
         reads = collections.Counter()
@@ -312,13 +375,13 @@ class Session:
             if k == "start":
                 execs[key] += 1
             elif k == "rd":
-                reads[self.name_to_id[key]] += 1
+                reads[key] += 1
             elif k == "wr":
-                writes[self.name_to_id[key]] += 1
+                writes[key] += 1
             elif k == "side_write":
-                side[self.name_to_id[key]] += 1
+                side[key] += 1
             elif k == "mt":
-                mts[self.name_to_id[key]] += 1
+                mts[key] += 1
         return execs, reads, writes, side, mts
 
     def check_counts(self, exp):
@@ -326,7 +389,10 @@ class Session:
         execs, reads, writes, side, mts = self.observed()
 
         def diff(name, got, want):
-            want_c = collections.Counter({i: 1 for i in want})
+            if name == "call executions":
+                want_c = collections.Counter({i: 1 for i in want})
+            else:
+                want_c = collections.Counter(self.store_name[i] for i in want)
             if got != want_c:
                 extra = sorted((got - want_c).elements())
                 missing = sorted((want_c - got).elements())
@@ -344,7 +410,11 @@ class Session:
         """Like check_counts, but store operations that fail their first j attempts are expected j+1 times."""
         execs, reads, writes, side, mts = self.observed()
         for name, got, want, kind in (("store writes", writes, exp.writes, "wr_before"), ("store reads", reads, exp.reads, "rd")):
-            want_c = collections.Counter({i: 1 + flaky.get((kind, f"s{i}"), 0) for i in want})
+            want_c = collections.Counter()
+            for i in want:
+                want_c[self.store_name[i]] += 1
+            for nm in list(want_c):
+                want_c[nm] += flaky.get((kind, nm), 0)  # the first j attempts on that store fail, whoever issues them
             if got != want_c:
                 return f"{name}: got {dict(got)} expected {dict(want_c)}"
         # a call whose write/read-back is retried is still executed once
@@ -357,7 +427,7 @@ class Session:
         """C03: output and every non-pure-source store equal the from-scratch values."""
         raw, seen = self.scratch()
         if out_ids is not None:
-            want = [seen[i] for i in out_ids]
+            want = seen[int(out_ids)] if isinstance(out_ids, Bare) else [seen[i] for i in out_ids]
             if not irmod.struct_eq(result, want):
                 return f"output {irmod.canon(result)[:200]} differs from from-scratch {irmod.canon(want)[:200]}"
         elif result is not None:
@@ -387,7 +457,9 @@ class Session:
         for n in self.ir.nodes[:limit]:
             role = self.rp.role[n.id]
             if n.kind == "source":
-                lines.append(f"n{n.id} = {role} store=s{n.id}{' norm' if self.stores[n.id].normalising else ''}")
+                lines.append(f"n{n.id} = {role} store={self.stores[n.id].name}{' norm' if self.stores[n.id].normalising else ''}")
+            elif n.kind == "lit":
+                lines.append(f"n{n.id} = {role} lit({n.value!r}) store={self.stores[n.id].name}{' norm' if self.stores[n.id].normalising else ''}")
             else:
                 a = ", ".join([x.desc() for x in n.args] + [f"{k}={x.desc()}" for k, x in n.kwargs])
                 st = f" store=s{n.id}{' norm' if self.stores[n.id].normalising else ''}" if n.id in self.stores else ""
@@ -396,4 +468,4 @@ class Session:
         return lines
 
     def state_desc(self):
-        return {f"s{i}": st.mtick for i, st in sorted(self.stores.items())}
+        return {st.name: st.mtick for i, st in sorted(self.stores.items())}
